@@ -119,6 +119,8 @@ class MemoryAccess:
                                     priority, pgn, sa, timestamp, data
                                 )
                                 self.server.set_busy(False)
+                                # forget the rejected request, otherwise no later one is accepted
+                                self.server.reset_query()
                                 self.state = DMState.IDLE
                                 self.server.error = 0x0
 
